@@ -209,8 +209,20 @@ var c04pCur *c04pState
 // c04pBoot brings a container up from configuration records, the way the
 // program starts: clientsContainer.Init, then a DNSFilter from the filtering
 // configuration Init completed.
-func c04pBoot(objs []*clientObject, d *c04pDHCP) (cc *clientsContainer, flt *filtering.DNSFilter, err error) {
+func c04pBoot(
+	objs []*clientObject,
+	d *c04pDHCP,
+	src []string,
+) (cc *clientsContainer, flt *filtering.DNSFilter, err error) {
 	c04pInitOnce.Do(filtering.InitModule)
+	// clients.runtime_sources of the configuration this start reads
+	if config.Clients == nil {
+		config.Clients = &clientsConfig{}
+	}
+	config.Clients.Sources = &clientSourcesConfig{
+		WHOIS: vutil.UnB(src[0]), ARP: vutil.UnB(src[1]), RDNS: vutil.UnB(src[2]), DHCP: vutil.UnB(src[3]),
+		HostsFile: vutil.UnB(src[4]),
+	}
 	cc = &clientsContainer{testing: true}
 	fconf := &filtering.Config{
 		BlockedServices:     &filtering.BlockedServices{Schedule: schedule.EmptyWeekly(), IDs: []string{c04pServices[0]}},
@@ -341,12 +353,12 @@ func c04pRun(f []string) []string {
 	ctx := context.Background()
 	if f[0] == "C04.reset" {
 		d := &c04pDHCP{macs: map[netip.Addr]net.HardwareAddr{}}
-		cc, flt, err := c04pBoot(nil, d)
+		n := vutil.Atoi(f[1])
+		cc, flt, err := c04pBoot(nil, d, f[2+8*n:2+8*n+5])
 		if err != nil {
 			panic(err)
 		}
 		c := &c04pState{cc: cc, flt: flt, dhcp: d}
-		n := vutil.Atoi(f[1])
 		for k := 0; k < n; k++ {
 			g := f[2+8*k : 2+8*k+8]
 			pr := c04pProbe{tag: g[0]}
@@ -421,7 +433,7 @@ func c04pRun(f []string) []string {
 
 				return
 			}
-			cc, flt, berr := c04pBoot(objs, c.dhcp)
+			cc, flt, berr := c04pBoot(objs, c.dhcp, f[1:6])
 			if berr != nil {
 				if os.Getenv("VERIF_STACK") != "" {
 					fmt.Fprintln(os.Stderr, "restart:", berr)
@@ -561,7 +573,15 @@ func c04pGen(r *rand.Rand, emit vutil.Emit) {
 		for _, g := range probes {
 			f = append(f, g...)
 		}
-		emit(f...)
+		// runtime_sources: whois arp rdns dhcp hosts — every combination
+		srcBits := func() (b []string) {
+			for k := 0; k < 5; k++ {
+				b = append(b, vutil.Itoa(r.IntN(2)))
+			}
+
+			return b
+		}
+		emit(append(f, srcBits()...)...)
 
 		nextUID := 1
 		var live []string
@@ -636,10 +656,10 @@ func c04pGen(r *rand.Rand, emit vutil.Emit) {
 			case x < 80:
 				emit(append([]string{"C04.dhcpdel"}, c04pIPFields(vutil.Pick(r, addrs))...)...)
 			default:
-				emit("C04.restart")
+				emit(append([]string{"C04.restart"}, srcBits()...)...)
 			}
 		}
-		emit("C04.restart")
+		emit(append([]string{"C04.restart"}, srcBits()...)...)
 	}
 }
 
